@@ -353,6 +353,50 @@ DRV_OP(dv_new) {
         return ndTok(st.view->dataExtent());
     });
 }
+// The typed transfers of ONE value and of a std::vector the library sizes itself (the templates of include/nix/DataSet.hpp over Hydra):
+//   da_one|dv_one rd3 <dtype> <count> <offset>   getData(T &value, count, offset)            => ok [value]
+//   da_one|dv_one rd2 <dtype> ~ <offset>         getData(T &value, offset)                   => ok [value]
+//   da_one|dv_one wr2 <dtype> <value> <offset>   setData(const T &value, offset)             => ok
+//   da_one|dv_one vec <dtype> <count> <offset>   getData(std::vector<T> &value, count, offset) => ok [values of the vector as the library sized it]
+// The single value lives in a heap cell of exactly one element: a transfer of more than one element is an overrun the sanitizers see.
+namespace {
+struct One {
+    nix::DataSet *ds; std::string how; std::string arg; nix::NDSize offset;
+    template<typename T> std::string run() {
+        if (how == "vec") { return vec<T>(); }
+        std::unique_ptr<T[]> cell(new T[1]);
+        cell[0] = T();
+        if (how == "rd3") ds->getData(cell[0], nd(arg), offset);
+        else if (how == "rd2") ds->getData(cell[0], offset);
+        else if (how == "wr2") { cell[0] = Conv<T>::from(arg); const T &cv = cell[0]; ds->setData(cv, offset); return ""; }
+        else throw ProtoError("da_one how");
+        return listTok({Conv<T>::to(cell[0])});
+    }
+    template<typename T> std::string vec() {
+        std::vector<T> v;
+        ds->getData(v, nd(arg), offset);
+        std::vector<std::string> out;
+        for (auto &x : v) out.push_back(Conv<T>::to(x));
+        return listTok(out);
+    }
+};
+template<> std::string One::vec<bool>() { throw ProtoError("no std::vector<bool> transfers"); }
+}
+DRV_OP(da_one) {
+    if (a.size() != 5) throw ProtoError("da_one arity");
+    return guarded([&]() {
+        One o{a[1] == "wr2" ? (nix::DataSet *) &wrH() : (nix::DataSet *) &rdH(), a[1], a[3], nd(a[4])};
+        return withType(dtOf(a[2]), o);
+    });
+}
+DRV_OP(dv_one) {
+    if (a.size() != 5) throw ProtoError("dv_one arity");
+    return guarded([&]() {
+        if (!st.view) return std::string("no-view");
+        One o{st.view.get(), a[1], a[3], nd(a[4])};
+        return withType(dtOf(a[2]), o);
+    });
+}
 // dv_rd <dtype> <count> <offset> <n> ; dv_wr <dtype> <count> <offset> [values]
 DRV_OP(dv_rd) {
     if (a.size() != 5) throw ProtoError("dv_rd arity");
